@@ -72,8 +72,24 @@ type world struct {
 	nid   int
 }
 
+// ckey is a harness key type whose hash is constant: distinct keys, one hashed int.
+type ckey struct{ n int }
+
+func (ckey) HashedInt() int { return 42 }
+
 func mkKey(kt string, k int) mux.Hashed2Int {
 	switch kt {
+	case "mix": // distinct keys (different wrapper types), all with HashedInt() = 7
+		return []mux.Hashed2Int{mux.Int(7), mux.Int64(7), mux.Int32(7), mux.UInt64(7), mux.Int16(7), mux.Byte(7),
+			mux.UInt32(7), mux.UInt16(7)}[(k-1)%8]
+	case "crcpair": // CRC-32 collisions: two strings; the same number in different CRC wrapper types
+		return []mux.Hashed2Int{mux.String("plumless"), mux.String("buckeroo"), mux.Int64CRC(5), mux.UInt64CRC(5),
+			mux.IntCRC(5), mux.UIntCRC(5), mux.Int32CRC(9), mux.UInt32CRC(9)}[(k-1)%8]
+	case "const":
+		return ckey{k}
+	case "minmix": // equal after the int conversion, at the extreme
+		return []mux.Hashed2Int{mux.Int64(math.MinInt64), mux.UInt64(1 << 63), mux.Int(math.MinInt64), mux.Int64(-1),
+			mux.Int(-1), mux.Int8(-1), mux.Int16(-1), mux.Int32(-1)}[(k-1)%8]
 	case "neg":
 		return mux.Int(-37 * k)
 	case "str":
